@@ -11,6 +11,11 @@ NOTES = ("Contract-based deductive verification. Each check extracts the real fu
          "otherwise labelled bounded and not counted) discharge every obligation. Exit 2 = undecided (lost anchor / unsupported construct / solver limit), never an alarm.")
 
 CLAIMS = {
+    "C02": dict(
+        technique="Verus function contracts on the extracted real bookkeeping functions (PartialVersion::is_complete/full_range, ...) against a set-valued view of RangeInclusiveSet",
+        text="Unbounded proof (Verus/Z3) over all range sets / all u64 values of the decision kernels the advertised sync state is computed from. Decides the per-function algebra only; that the functions are called inside the right SQLite transaction is not decided.",
+        note="Assumed: the contract of rangemap::RangeInclusiveSet (lib/rangeset.vrs; differential depcheck against the real crate is bounded), derived Ord on the u64 newtypes. Not decided: SQLite durability, call sequencing in process_multiple_changes, from_conn row loops.",
+    ),
     "C08": dict(
         technique="Verus function contracts + loop invariants on the extracted real ChunkedChanges::{new,next,set_max_buf_size}; verified driver for the whole-run tiling statement",
         text="Unbounded proof (Verus/Z3) that every call of the real ChunkedChanges::next returns a prefix of the remaining rows with a range that starts where the previous ended, "
@@ -29,7 +34,6 @@ NOT_APPLICABLE = {
     "C19": "behaviour is SQL (VACUUM INTO, ordinal rewrites) + file locking across processes",
     "C20": "tokio concurrency (exclusion, priority, deadlock freedom); outside Kani (no threads) and Verus (needs its own sync primitives)",
     # not yet built — removed from this list as each check lands
-    "C02": "check not built yet in this round (planned: DESIGN.md §5/C02)",
     "C03": "check not built yet in this round (planned: DESIGN.md §5/C03)",
     "C04": "check not built yet in this round (planned: DESIGN.md §5/C04)",
     "C05": "check not built yet in this round (planned: DESIGN.md §5/C05)",
